@@ -1,5 +1,6 @@
 import TypstyleModel.Props.C01
 import TypstyleModel.Model.Printer.Knot
+import TypstyleModel.Proofs.Tokens
 /-! C07 — the `@typstyle off` escape hatch reproduces the next node verbatim (printer side:
 marking and verbatim emission are theorems; "the text occurs in the output" additionally needs that
 the atom reaches the output, which every layout guarantees (R1), and the post-pass (S5), and is
@@ -46,7 +47,7 @@ theorem C07_number_keeps_marks (n : ANode) (k : Nat) : (number n k).1.attrs.disa
 /-- T7.2 (expressions): a marked expression is not converted: the entry point returns one verbatim
 atom holding the node's source text, whatever the context. -/
 theorem C07_disabled_expr_is_verbatim (e : Env) (r : Rec) (ctx : Ctx) (n : ANode) (h : n.attrs.disabled = true) :
-    convExpr e r ctx n = (do enter .expr n.attrs.id; pure (e.verb n.intoText)) := by
+    convExpr e r ctx n = (do enter .expr n.attrs.id; pure (e.verbNode n)) := by
   simp [convExpr, h]
 
 /-- T7.2 (equation bodies). -/
@@ -57,7 +58,7 @@ theorem C07_disabled_math_is_verbatim (e : Env) (r : Rec) (ctx : Ctx) (n : ANode
 /-- T7.2 (patterns). -/
 theorem C07_disabled_pattern_is_verbatim (e : Env) (r : Rec) (es ps : Ctx → ANode → M Twin.Doc) (ctx : Ctx) (n : ANode)
     (h : n.attrs.disabled = true) :
-    convPattern e r es ps ctx n = (do enter .pattern n.attrs.id; pure (e.verb n.intoText)) := by
+    convPattern e r es ps ctx n = (do enter .pattern n.attrs.id; pure (e.verbNode n)) := by
   simp [convPattern, h]
 
 /-- T7.2 (code bodies): a code block whose body is marked is emitted verbatim as a whole. -/
@@ -66,6 +67,15 @@ theorem C07_disabled_code_body_is_verbatim (e : Env) (r : Rec) (ctx : Ctx) (n bo
     convCodeBlock e r ctx n = pure (e.verb n.intoText) := by
   simp [convCodeBlock, hb, h]
 
+/-- `verbNode` is one text atom holding the node's whole source text (the tag only records the
+stream a leaf's text feeds). -/
+theorem C07_verbNode_is_source_text (e : Env) (n : ANode) :
+    ∃ tag, e.verbNode n = Twin.mkText e.wd tag n.intoText := by
+  unfold Env.verbNode
+  split
+  · exact ⟨_, rfl⟩
+  · exact ⟨.verbatim, rfl⟩
+
 /-- The verbatim document is a single text atom carrying exactly the source text — at every indent
 unit, in every layout (so at every width): nothing inside it can be re-spaced, re-broken or re-indented. -/
 theorem C07_verbatim_is_one_atom (e : Env) (s : String) (hs : s.isEmpty = false) (u : Nat) (m : Mode) (xs : List Atom)
@@ -73,5 +83,20 @@ theorem C07_verbatim_is_one_atom (e : Env) (s : String) (hs : s.isEmpty = false)
   simp only [Env.verb, Twin.fam_mkText, mkText, hs] at h
   cases h
   rfl
+
+/-- T7.3 (verbatim regions are preserved, by construction): the printer's documents carry the text
+of the atoms they copy for `@typstyle off` nodes — every character, blanks and line breaks included —
+through every builder operation.  If the family printed for a tree passes the comparison with the
+tree's own verbatim text (`verbatimCertified`: evaluated on every case of the correspondence run,
+field `verb`), then at **every** width and indent unit the rendered layout contains the source text
+of every marked node, complete, unchanged and in order (each as one atom: `C07_verbatim_is_one_atom`). -/
+theorem C07_verbatim_preserved (root : Node) (d : Twin.Doc) (h : verbatimCertified root d = true) (u w : Nat) :
+    verbText (best w 0 [⟨0, .brk, d.fam u⟩]) = (specVerb (prepare root)).toList :=
+  certified_verbatim_best root d h u w
+
+theorem C07_verbatim_preserved_all_layouts (root : Node) (d : Twin.Doc) (h : verbatimCertified root d = true)
+    (u : Nat) (m : Mode) (xs : List Atom) (hl : Lay m (d.fam u) xs) :
+    verbText xs = (specVerb (prepare root)).toList :=
+  certified_verbatim root d h u m xs hl
 
 end Typstyle
